@@ -38,6 +38,23 @@ PROPS = {
         "level_text": "The canonical reference-model idiom: every mutation history is replayed on a plain port multigraph and every query (iteration, count, lookup of live and dead handles, parent, ordered children, links(), linked_ports from both ends and all offsets incl. the order port, per-port listings, order-link listings, has_link, port counts as lower bounds) is compared after every call. Histories with collisions (small offset range, locality, index reuse) are sampled; exploration is the level a sampled history space supports.",
         "level_note": "Trusted: oracles/refgraph.py. Calls are atomic (no yield point inside the library), so an interleaving is a total order of calls. num_incoming/num_outgoing are not compared (the statement does not list them). Insertion order inside linked_ports is not asserted. Only leaves are deleted.",
     },
+    "C08": {
+        "engine": "A+B", "level": "exploration",
+        "tiers": {"quick": {"batches": 16, "runs": 500, "budget_s": 45, "floor_runs": 1500},
+                  "thorough": {"batches": 64, "runs": 5000, "budget_s": 500, "floor_runs": 50000}},
+        "rule": "one run = engine-A history on a target HUGR and 1-2 source HUGRs (each with its own actor, so sources have "
+                "holes, reused indices, multi-linked ports, order links and metadata) with insert_hugr steps at scheduler-chosen "
+                "points, or an engine-B builder program using insert_nested / insert_cfg / insert_conditional / insert_tail_loop; "
+                "after each insertion the returned mapping is checked to be an isomorphism (ops, hierarchy with child order, "
+                "metadata, output port counts, every link with offsets and multiplicity), root placement, frame condition on the "
+                "target and source-unmodified; non-trivial = >= 3 calls and >= 1 insertion; distinct = distinct event-log digests",
+        "real": ["Hugr.insert_hugr and the graph store; builders' insert_* wrappers (engine-B leg)"], "stub": [],
+        "expected_probes": ["insert_source_with_holes", "insert_into_freed_indices", "inserted_order_links",
+                            "inserted_parallel_links", "inserted_nodes_with_metadata", "non_monotone_mapping"],
+        "technique": "seeded interleaved mutation histories on target and source graphs with insertion steps, isomorphism + frame-condition oracle on public observations before/after; choice-trace minimisation; fresh-interpreter replay",
+        "level_text": "Insertion is checked on graphs that have a history, because that is where its defect classes live (index holes in the source, freed indices reused in the target so the mapping is not monotone, ports with several links, order links, metadata). The oracle observes both HUGRs through public queries before and after and checks isomorphism, root placement, frame and source-unmodified independently of the implementation's own mapping logic.",
+        "level_note": "Trusted: oracles/iso.py. Later aliasing of metadata dicts between source and target is not asserted (the statement is about the moment of insertion). Operations are compared by identity or dataclass equality.",
+    },
     "C19": {
         "engine": "D", "level": "exploration",
         "tiers": {"quick": {"batches": 16, "runs": 1500, "budget_s": 40, "floor_runs": 4000},
